@@ -458,10 +458,10 @@ theorem spec_walk_stop (tp : Spec.Topo) (dcs : List Nat) (rf : Nat → Nat) (sst
 
 theorem sim_walk (c : NtsCfg) (tp : Spec.Topo) : ∀ (rest pre : List Host) (st : NtsSt) (sst : Spec.St),
     Env c tp (pre ++ rest) → Good c st → J pre st → Sim c st sst →
-    (ntsWalk c st rest).replicas = (Spec.walk tp (c.rfs.map (·.1)) (rfOf c.rfs) sst rest).replicas := by
+    (walk0 c st rest).replicas = (Spec.walk tp (c.rfs.map (·.1)) (rfOf c.rfs) sst rest).replicas := by
   intro rest
   induction rest with
-  | nil => intro pre st sst _ _ _ s; simp [ntsWalk, Spec.walk, s.reps]
+  | nil => intro pre st sst _ _ _ s; simp [walk0, Spec.walk, s.reps]
   | cons h rest ih =>
     intro pre st sst env g j s
     have env' : Env c tp ((pre ++ [h]) ++ rest) := by simpa using env
@@ -469,7 +469,7 @@ theorem sim_walk (c : NtsCfg) (tp : Spec.Topo) : ∀ (rest pre : List Host) (st 
     by_cases hS : (c.rfs.map (·.1)).all (fun dc => Spec.sufficient tp (rfOf c.rfs) sst dc) = true
     · -- Cassandra's loop stops here
       rw [spec_walk_stop tp _ _ sst hS]
-      unfold ntsWalk
+      unfold walk0
       simp only [g.nocrash, Bool.false_eq_true, if_false]
       by_cases hM : st.replicas.length < c.totalRF ∧ haveRF c st = false
       · simp only [hM, and_self, if_true]
@@ -504,7 +504,7 @@ theorem sim_walk (c : NtsCfg) (tp : Spec.Topo) : ∀ (rest pre : List Host) (st 
         have := env.nd
         rw [List.nodup_append] at this
         exact this.2.2 h hm h (List.mem_cons_self ..) rfl
-      unfold ntsWalk Spec.walk
+      unfold walk0 Spec.walk
       simp only [g.nocrash, Bool.false_eq_true, if_false, hM, and_self, if_true, hS]
       exact ih (pre ++ [h]) _ _ env' (good_step c st h g) (j_step c pre h st g j hnew)
         (sim_step c tp pre rest h st sst env g j s)
